@@ -229,6 +229,83 @@ func runDctCorr(c *Ctx, prop string) {
 	corrColour(c, rng.Fork())
 	corrPipeline(c, rng.Fork())
 	corrGeometry(c, rng.Fork())
+	corrRestart(c, rng.Fork())
+}
+
+// (7) restart-interval bookkeeping: reference streams coded with restart interval `used`
+// whose DRI segment declares `decl`. decl == used must decode; decl < used leaves the decoder
+// short of intervals (ErrInvalidData). Compared by outcome class, and the model also reports
+// how many intervals it split the scan into.
+func corrRestart(c *Ctx, rng *Rand) {
+	n := c.N(80, 800)
+	type rc struct {
+		w, h, used, decl int
+		samp            string
+		seed            uint64
+	}
+	cases := make([]rc, n)
+	for i := range cases {
+		k := rc{w: rng.Range(1, 48), h: rng.Range(1, 48), used: rng.Range(1, 6), samp: []string{"gray", "444", "420", "422"}[i%4], seed: rng.U64()}
+		k.decl = k.used
+		if i%3 == 0 {
+			k.decl = rng.Range(1, k.used)
+		}
+		cases[i] = k
+	}
+	ParallelFor(n, c.Work, func(i int) {
+		k := cases[i]
+		comps := 3
+		if k.samp == "gray" {
+			comps = 1
+		}
+		o := defaultOpts(comps, 80)
+		o.Sampling, o.Restart = k.samp, k.used
+		px := gen8(NewRand(k.seed), "smooth", k.w, k.h, comps)
+		var s []byte
+		if comps == 1 {
+			s = refEncode([][]byte{px}, k.w, k.h, o)
+		} else {
+			s = refEncode(rgbToPlanes(px, k.w, k.h), k.w, k.h, o)
+		}
+		_, mc, mr := refLayout(comps, k.w, k.h, o)
+		nm := mc * mr
+		// patch the DRI payload and find the scan bytes
+		p := 2
+		scan := -1
+		for p+4 <= len(s) {
+			m, l := s[p+1], int(s[p+2])<<8|int(s[p+3])
+			if m == 0xDD {
+				s[p+4], s[p+5] = byte(k.decl>>8), byte(k.decl)
+			}
+			p += 2 + l
+			if m == 0xDA {
+				scan = p
+				break
+			}
+		}
+		if scan < 0 {
+			return
+		}
+		var err error
+		pan, _ := Safely(func() { _, _, _, _, err = baseline.Decode(s) })
+		impl := "ok"
+		if pan {
+			impl = "panic"
+		} else if err != nil {
+			impl = "err"
+		}
+		got := c.M.Call("dct_rst", strconv.Itoa(k.decl), strconv.Itoa(nm), Hex(s[scan:]))
+		if strings.HasPrefix(got, "ok:") {
+			// the model's interval count must be what the reference encoder produced
+			want := (nm + k.used - 1) / k.used
+			if got != "ok:"+strconv.Itoa(want) {
+				c.R.Fail("corr", "dct_rst", "dct:rst:intervals", fmt.Sprintf("model split the scan into %s intervals, encoder wrote %d", got, want), map[string]interface{}{"case": k})
+			}
+			got = "ok"
+		}
+		c.R.Case(fmt.Sprintf("rst:%d:%d:%d:%d:%s", k.w, k.h, k.used, k.decl, k.samp), true, "corr.restart")
+		c.CorrEq("dct_rst", "dct:rst:"+k.samp, got, impl, map[string]interface{}{"w": k.w, "h": k.h, "used": k.used, "declared": k.decl, "sampling": k.samp, "mcus": nm, "stream": clipBytes(s)})
+	})
 }
 
 // (1) ScaleQuantTable at every quality, against the exported function and against the DQT
